@@ -1,6 +1,7 @@
 package c06
 
 import (
+	"errors"
 	"fmt"
 	"os"
 	"path/filepath"
@@ -28,6 +29,7 @@ type Mutation struct {
 type hook struct {
 	mu      sync.Mutex
 	k       int
+	failAt  int // fail-stop variant: mutation failAt and every later one return an error (0 = off)
 	n       int
 	gitdir  string
 	log     []Mutation
@@ -35,11 +37,24 @@ type hook struct {
 	fatal   func(err error)
 }
 
-func (h *hook) before(kind, arg string, cw *clockWrite) {
+// errInjected is what a mutating call returns in the fail-stop variant.
+var errInjected = errors.New("injected storage error")
+
+func (h *hook) before(kind, arg string, cw *clockWrite) error {
 	h.mu.Lock()
 	defer h.mu.Unlock()
 	h.n++
 	m := Mutation{N: h.n, Kind: kind, Arg: arg}
+	if h.failAt > 0 {
+		if cw != nil {
+			m.Clock = true
+		}
+		h.log = append(h.log, m)
+		if h.n >= h.failAt {
+			return errInjected
+		}
+		return nil
+	}
 	var variants []TornVariant
 	if cw != nil {
 		m.Clock = true
@@ -59,6 +74,7 @@ func (h *hook) before(kind, arg string, cw *clockWrite) {
 	if h.n == h.k {
 		h.onCrash(m, cw, variants)
 	}
+	return nil
 }
 
 // crashRepo decorates a ClockedRepo: every mutating call goes through the hook first.
@@ -75,22 +91,30 @@ func short(h repository.Hash) string {
 }
 
 func (r *crashRepo) StoreData(data []byte) (repository.Hash, error) {
-	r.h.before("StoreData", fmt.Sprintf("%d bytes", len(data)), nil)
+	if err := r.h.before("StoreData", fmt.Sprintf("%d bytes", len(data)), nil); err != nil {
+		return "", err
+	}
 	return r.ClockedRepo.StoreData(data)
 }
 
 func (r *crashRepo) StoreTree(mapping []repository.TreeEntry) (repository.Hash, error) {
-	r.h.before("StoreTree", fmt.Sprintf("%d entries", len(mapping)), nil)
+	if err := r.h.before("StoreTree", fmt.Sprintf("%d entries", len(mapping)), nil); err != nil {
+		return "", err
+	}
 	return r.ClockedRepo.StoreTree(mapping)
 }
 
 func (r *crashRepo) StoreCommit(treeHash repository.Hash, parents ...repository.Hash) (repository.Hash, error) {
-	r.h.before("StoreCommit", fmt.Sprintf("%d parents", len(parents)), nil)
+	if err := r.h.before("StoreCommit", fmt.Sprintf("%d parents", len(parents)), nil); err != nil {
+		return "", err
+	}
 	return r.ClockedRepo.StoreCommit(treeHash, parents...)
 }
 
 func (r *crashRepo) StoreSignedCommit(treeHash repository.Hash, signKey *openpgp.Entity, parents ...repository.Hash) (repository.Hash, error) {
-	r.h.before("StoreSignedCommit", fmt.Sprintf("%d parents", len(parents)), nil)
+	if err := r.h.before("StoreSignedCommit", fmt.Sprintf("%d parents", len(parents)), nil); err != nil {
+		return "", err
+	}
 	return r.ClockedRepo.StoreSignedCommit(treeHash, signKey, parents...)
 }
 
@@ -101,37 +125,51 @@ func refKind(ref string) string {
 }
 
 func (r *crashRepo) UpdateRef(ref string, hash repository.Hash) error {
-	r.h.before("UpdateRef", refKind(ref), nil)
+	if err := r.h.before("UpdateRef", refKind(ref), nil); err != nil {
+		return err
+	}
 	return r.ClockedRepo.UpdateRef(ref, hash)
 }
 
 func (r *crashRepo) CopyRef(source string, dest string) error {
-	r.h.before("CopyRef", refKind(source)+" -> "+refKind(dest), nil)
+	if err := r.h.before("CopyRef", refKind(source)+" -> "+refKind(dest), nil); err != nil {
+		return err
+	}
 	return r.ClockedRepo.CopyRef(source, dest)
 }
 
 func (r *crashRepo) RemoveRef(ref string) error {
-	r.h.before("RemoveRef", refKind(ref), nil)
+	if err := r.h.before("RemoveRef", refKind(ref), nil); err != nil {
+		return err
+	}
 	return r.ClockedRepo.RemoveRef(ref)
 }
 
 func (r *crashRepo) FetchRefs(remote string, prefixes ...string) (string, error) {
-	r.h.before("FetchRefs", fmt.Sprint(remote, " ", prefixes), nil)
+	if err := r.h.before("FetchRefs", fmt.Sprint(remote, " ", prefixes), nil); err != nil {
+		return "", err
+	}
 	return r.ClockedRepo.FetchRefs(remote, prefixes...)
 }
 
 func (r *crashRepo) PushRefs(remote string, prefixes ...string) (string, error) {
-	r.h.before("PushRefs", fmt.Sprint(remote, " ", prefixes), nil)
+	if err := r.h.before("PushRefs", fmt.Sprint(remote, " ", prefixes), nil); err != nil {
+		return "", err
+	}
 	return r.ClockedRepo.PushRefs(remote, prefixes...)
 }
 
 func (r *crashRepo) Increment(name string) (lamport.Time, error) {
-	r.h.before("Increment", name, &clockWrite{Name: name})
+	if err := r.h.before("Increment", name, &clockWrite{Name: name}); err != nil {
+		return 0, err
+	}
 	return r.ClockedRepo.Increment(name)
 }
 
 func (r *crashRepo) Witness(name string, t lamport.Time) error {
-	r.h.before("Witness", name, &clockWrite{Name: name, Witness: true, Time: uint64(t)})
+	if err := r.h.before("Witness", name, &clockWrite{Name: name, Witness: true, Time: uint64(t)}); err != nil {
+		return err
+	}
 	return r.ClockedRepo.Witness(name, t)
 }
 
@@ -145,21 +183,29 @@ type crashConfig struct {
 }
 
 func (c *crashConfig) StoreString(key, value string) error {
-	c.h.before("Config.StoreString", key, nil)
+	if err := c.h.before("Config.StoreString", key, nil); err != nil {
+		return err
+	}
 	return c.Config.StoreString(key, value)
 }
 
 func (c *crashConfig) StoreTimestamp(key string, value time.Time) error {
-	c.h.before("Config.StoreTimestamp", key, nil)
+	if err := c.h.before("Config.StoreTimestamp", key, nil); err != nil {
+		return err
+	}
 	return c.Config.StoreTimestamp(key, value)
 }
 
 func (c *crashConfig) StoreBool(key string, value bool) error {
-	c.h.before("Config.StoreBool", key, nil)
+	if err := c.h.before("Config.StoreBool", key, nil); err != nil {
+		return err
+	}
 	return c.Config.StoreBool(key, value)
 }
 
 func (c *crashConfig) RemoveAll(keyPrefix string) error {
-	c.h.before("Config.RemoveAll", keyPrefix, nil)
+	if err := c.h.before("Config.RemoveAll", keyPrefix, nil); err != nil {
+		return err
+	}
 	return c.Config.RemoveAll(keyPrefix)
 }
